@@ -29,7 +29,7 @@ Definition render_outcome (o : outcome) : string :=
   | Ret v => "ok:" ++ render_rv v
   | Raise tag kind => "exc:" ++ show kind ++ ":same-object:" ++ show tag
   | DdsErr c => "dds:" ++ c
-  | LowErr w => "low:" ++ w
+  | LowErr w => "exc:" ++ w
   end.
 
 Inductive action :=
